@@ -19,12 +19,19 @@ template <typename S> std::vector<S> test_values(uint64_t seed, std::true_type /
     long long pts[] = {65535, 65536, -65536, 32767, -32768, 1000, 999, 1001, 12345, -12345, 100000, 86400, 3600};
     for (long long p : pts) if (p >= (long long)std::numeric_limits<S>::lowest() && p <= (long long)std::numeric_limits<S>::max()) v.push_back((S)p);
     for (int i = 0; i < 250; ++i) { long long x = (long long)(rng.next() % 131073) - 65536; if (x >= (long long)std::numeric_limits<S>::lowest() && x <= (long long)std::numeric_limits<S>::max()) v.push_back((S)x); }
+    // integers at the edge of the floating types' integer range (odd values just below 2^24 and 2^53)
+    long long edge[] = {8388609LL, 16777215LL, 16777217LL, 4503599627370497LL, 9007199254740991LL, 9007199254740993LL, -8388609LL, -4503599627370497LL, -9007199254740991LL};
+    for (long long p : edge) if ((long double)p >= (long double)std::numeric_limits<S>::lowest() && (long double)p <= (long double)std::numeric_limits<S>::max()) v.push_back((S)p);
     return v;
 }
 template <typename S> std::vector<S> test_values(uint64_t seed, std::false_type) {
     std::vector<S> v; Rng rng(seed);
     S sp[] = {S(0), -S(0), S(0.5), S(-0.5), S(1.5), S(2.5), S(-2.5), S(0.49999999), S(1e6), S(-1e6), S(1) / S(3), S(123456.789), S(1e-9), S(7), S(-7), S(2.4999999), S(3.5000001)};
     for (S x : sp) v.push_back(x);
+    // the last value below one half, the neighbours of the ties, odd integers in the last binade with unit spacing
+    const S half = S(0.5), big = (S)std::ldexp((long double)1, std::numeric_limits<S>::digits - 1);
+    S ed[] = {std::nextafter(half, S(0)), std::nextafter(half, S(1)), std::nextafter(S(1.5), S(0)), std::nextafter(S(2.5), S(3)), big + S(1), big + S(3), big * S(2) - S(1), big - half, big / S(2) + half};
+    for (S x : ed) { v.push_back(x); v.push_back(-x); }
     for (int i = 0; i < 300; ++i) { S x = (S)std::ldexp((long double)(rng.next() >> 11) / 9007199254740992.0L, (int)(rng.next() % 40) - 8); if (rng.next() & 1) x = -x; v.push_back(x); if (i % 3 == 0) v.push_back((S)(std::floor(x) + S(0.5))); }
     return v;
 }
@@ -38,6 +45,14 @@ template <typename U1, typename S, typename U2> void rounding(uint64_t seed) {
         ++n;
         // the _as forms and explicit-rep forms agree with the _in forms
         if (!beq(floor_as(U2{}, q).in(U2{}), f) || !beq(ceil_as(U2{}, q).in(U2{}), c) || !beq(round_as(U2{}, q).in(U2{}), r)) ++incons;
+        // no unit change: exactly the std function applied to the value (in the floating type the std function works in)
+        if (std::is_same<U1, U2>::value) {
+            typedef decltype(std::round(x)) FR;
+            if (!beq((FR)r, std::round(x)) || !beq((FR)f, std::floor(x)) || !beq((FR)c, std::ceil(x))) {
+                ++incons;
+                if (incons < 12) std::printf("{\"k\":\"mathmis\",\"what\":\"round/floor/ceil without a unit change differs from the std function\",\"R\":\"%s\",\"x\":%s,\"y\":%s}\n", rep_name<S>(), fwire((long double)x).c_str(), fwire((long double)r).c_str());
+            }
+        }
         if (std::fabs((long double)r) < 1e15L && ((long long)round_in<long long>(U2{}, q) != (long long)r || (long long)floor_as<long long>(U2{}, q).in(U2{}) != (long long)f)) ++incons;
         const char *fn[3] = {"floor", "ceil", "round"};
         decltype(f) res[3] = {f, c, r};
